@@ -706,6 +706,22 @@ fn convert_qualified_var(
                 location: loc.clone(),
             });
             // Continue with the resolved name despite the error
+        } else if lookup_name != resolved_name
+            && let Some(&target_is_public) = ctx.module_info.visibility_map.get(&lookup_name)
+        {
+            // The path names a re-export: the member it leads to must be accessible from here
+            // as well, whatever the re-export was marked with when it was registered.
+            let target_path = extract_path_from_mangled(lookup_name);
+            if !target_is_public
+                && target_path.len() > 1
+                && !ctx.is_within_module_hierarchy(&target_path)
+            {
+                ctx.errors.push(Error::PrivateMemberAccess {
+                    module_path: target_path[..target_path.len() - 1].to_vec(),
+                    member: *target_path.last().unwrap(),
+                    location: loc.clone(),
+                });
+            }
         }
     }
 
